@@ -159,7 +159,7 @@ func TestEngineCalltree(t *testing.T) {
 			if r.Chance(1, 3) {
 				nd.kind = 0
 			}
-			switch m := r.Intn(10); {
+			switch m := r.Intn(11); {
 			case m < 3:
 				nd.method, nd.a = "transfer", hx.Pick(r, others)
 			case m < 5:
@@ -172,7 +172,14 @@ func TestEngineCalltree(t *testing.T) {
 			case m < 9:
 				nd.method, nd.a = "burnFrom", hx.Pick(r, []int{self, 5, 6})
 			default:
-				nd.method, nd.a = "balanceOf", hx.Pick(r, others)
+				switch r.Intn(3) { // views inside the frames too: whatever they may remember must not survive the frame's revert
+				case 0:
+					nd.method, nd.a = "balanceOf", hx.Pick(r, others)
+				case 1:
+					nd.method = "totalSupply"
+				default:
+					nd.method, nd.a, nd.b = "allowance", hx.Pick(r, []int{self, 5, 6}), hx.Pick(r, others)
+				}
 			}
 			out = append(out, nd)
 		}
